@@ -247,7 +247,7 @@ pub fn execute(v: &Value) -> String {
             let (line, ch) = if sites.is_empty() { (0usize, 0usize) } else { let s = &sites[idx % sites.len()]; (s.0, s.1) };
             let pos = Position::new(line as u32, ch as u32);
             let tdp = TextDocumentPositionParams { text_document: TextDocumentIdentifier { uri: uri_of(&doc) }, position: pos };
-            let doc_key = Key::from_file_name(&doc);
+            let doc_key = Key::name(&doc);
 
             // oracle: the link the real reader finds under the cursor
             let site = catch_unwind(AssertUnwindSafe(|| {
